@@ -73,7 +73,15 @@ def campaign(ctx, module: str, function: str, runs: int, max_len: int = 512, see
         out['executions'] = r.get('executions', 0)
         if r.get('violation'):
             v = r['violation']
+            if v['signature'] == '__harness__':
+                from vlib.runner import HarnessError
+
+                raise HarnessError(f'fuzz target {name} raised {v["what"]} on input {v["data"][:200]}')
             out['crashes'].append((v['signature'], v['what'], bytes.fromhex(v['data'])))
+    if status not in ('done', 'timeout') and not out['crashes']:
+        from vlib.runner import HarnessError
+
+        raise HarnessError(f'fuzz campaign {name} ended with {status} and recorded no violation: {p.stderr[-400:] if status != "timeout" else ""}')
     ctx.labels[f'fuzz_executions:{name}'] += out['executions']
     return out
 
@@ -89,6 +97,8 @@ def _worker(argv):
         mod = importlib.import_module(module)
     target = getattr(mod, function)
     state = {'executions': 0}
+    # this file runs as __main__: the class the targets raise is the one of the importable module
+    from vlib.fuzz import FuzzViolation as TargetViolation
 
     def flush(violation=None):
         with open(result_path, 'w') as f:
@@ -98,8 +108,11 @@ def _worker(argv):
         state['executions'] += 1
         try:
             target(data)
-        except FuzzViolation as v:
+        except (FuzzViolation, TargetViolation) as v:
             flush({'signature': v.signature, 'what': v.what, 'data': bytes(data).hex()})
+            raise
+        except BaseException as e:  # anything else escaping the target is a bug of the harness
+            flush({'signature': '__harness__', 'what': f'{type(e).__name__}: {e}', 'data': bytes(data).hex()})
             raise
         if state['executions'] % 5000 == 0:
             flush()
